@@ -176,6 +176,14 @@ func orderSensitive(p *Program, fn *ast.BlockStmt, rs *ast.RangeStmt) ([]types.O
 					if _, isMap := p.Info.TypeOf(lx.X).Underlying().(*types.Map); isMap {
 						continue // map store: insensitive
 					}
+					// keys[n] = k into a slice variable: as sortable as an append
+					if id := identOf(lx.X); id != nil {
+						if _, isSlice := p.Info.TypeOf(lx.X).Underlying().(*types.Slice); isSlice {
+							objs = append(objs, p.Info.ObjectOf(id))
+							what += "indexed store into " + id.Name + "; "
+							continue
+						}
+					}
 					objs = append(objs, nil)
 					what += "indexed store " + types.ExprString(l) + "; "
 				case *ast.Ident:
